@@ -72,6 +72,7 @@ type runner struct {
 	coqBytes, coqBudget            int
 	objects, txs                   int
 	txcf                           *vh.CaseFile
+	histories, retainedObjs        int
 }
 
 func sliceOf(data []byte, s blk.Span) []byte { return data[s.Off : s.Off+s.Len] }
@@ -469,6 +470,7 @@ func run(c *vh.Ctx) error {
 		"fxamacker hands UnmarshalCBOR exactly the item's bytes: a theorem for the model parser (Lib.parse_full_sound), checked for fxamacker by the stored-bytes monitor against an independent walker",
 		"Blake2b-256 is a Section variable in C01_hash_binds; the monitor recomputes it with golang.org/x/crypto",
 		"Byron and Dijkstra blocks: monitored (stored bytes, hashes, re-serialisation) but ExtractAndSetTransactionCbor is only modelled for the Shelley..Conway layout",
+		"histories: SetCbor / SetCborReference are modelled as an allocate-only store (C01.Store: a decode never writes a buffer an earlier decode handed out; theorem C01_retained_stable); the implementation is held to it by the retained-* monitor keys only (no Coq case file for histories)",
 		"block-derived Transaction.Cbor() is assembled (no wire range exists for a Shelley+ transaction inside a block) and is not compared; standalone transactions are (decode_tx models the accept case: era field decoding is abstract)",
 	}
 	r := &runner{c: c, coqBudget: c.Pick(90_000, 900_000)}
@@ -491,6 +493,10 @@ func run(c *vh.Ctx) error {
 		root, _, err := vh.ParseItem(vh.UnHex(rp.Replay.Data))
 		if err != nil {
 			return err
+		}
+		if rp.Replay.Type >= retainTypeBase { // a retain history: the first input; the second is derived from it
+			r.runRetain(rp.Replay.Label, rp.Replay.Type-retainTypeBase, root)
+			return nil
 		}
 		if rp.Replay.Type >= 100 { // a standalone transaction
 			item, n, _ := vh.ParseItem(vh.UnHex(rp.Replay.Data))
@@ -517,6 +523,7 @@ func run(c *vh.Ctx) error {
 		r.runBlock(f.Name+":outer-9f", f.Type, w, f.Type == 3)
 	}
 	r.boundaryCorpus(fx)
+	r.retainCorpus(fx)
 	dtx, _ := os.ReadFile(blk.Repo() + "/ledger/dijkstra/testdata/cardano_ledger_dijkstra_w30_tx.hex")
 	r.txCorpus(fx, vh.UnHex(strings.TrimSpace(string(dtx))))
 	for round := 0; round < c.Pick(3, 25); round++ {
@@ -549,6 +556,7 @@ func run(c *vh.Ctx) error {
 	if pct < 60 {
 		c.Res.Violate("correspondence", "generator-too-canonical", fmt.Sprintf("only %d%% of accepted cases have a non-minimal container", pct), nil)
 	}
+	c.Res.Notes = append(c.Res.Notes, fmt.Sprintf("retain histories (decode A, keep its objects and Cbor() slices, decode B into the same receiver, re-check): %d, retained objects re-checked: %d", r.histories, r.retainedObjs))
 	_ = strings.TrimSpace
 	return nil
 }
